@@ -9,6 +9,8 @@ From Coq Require Import List NArith Bool String.
 From Coq.Strings Require Import Byte.
 From GM Require Import Topic.MatchSpec Topic.Levels Topic.Trie Topic.TrieProofs Topic.TrieMatchProofs
   Topic.TreeSpec Topic.TrieTopProofs.
+(* topic.Parse produces the inputs these theorems assume: Props/C04_parse.v *)
+From GM Require Props.C04_parse.
 Import ListNotations.
 Open Scope N_scope.
 
